@@ -75,6 +75,11 @@ theorem mulToRatInit_eq : Gen.C06.mulToRatInit =
      "i := Multiplier(1); int(i) < len(charToMul); i++", "c.Mul(&dn, d, dm)", "c.Mul(&bn, b, bm)",
      "mulToRat[mulDec|i] = d", "mulToRat[mulBin|i] = b"] := by decide
 
+/-- `NumInfo.decimal` returns the error of `UnmarshalText` (out-of-window exponents, no mantissa
+digits): the model's `litExp = none ↦ .err` and `bareZeroMul ↦ .err` (since /repo 1674508) -/
+theorem unmarshalStmt_eq : Gen.C06.unmarshalStmt =
+    "if err := v.UnmarshalText(p.buf); err != nil { return p.errorf(\"invalid number: %v\", err) }" := by decide
+
 theorem mulValue_eq (i : Nat) : NumVal.mulValue i false = 1000 ^ i ∧ NumVal.mulValue i true = 1024 ^ i := by
   simp [NumVal.mulValue]
 
@@ -95,9 +100,9 @@ theorem pin_adt_UnaryExpr_evaluate : Gen.C06.pin_adt_UnaryExpr_evaluate = "ad144
 theorem pin_adt_Num_Cmp : Gen.C06.pin_adt_Num_Cmp = "795f4e83ae9b565c" := by decide
 theorem pin_internal_reduceKeepingFloats : Gen.C06.pin_internal_reduceKeepingFloats = "9706c7d675af4cbc" := by decide
 theorem pin_internal_Context_Quo : Gen.C06.pin_internal_Context_Quo = "aa11236fac125b0d" := by decide
-theorem pin_literal_NumInfo_decimal : Gen.C06.pin_literal_NumInfo_decimal = "e85040d5b428da4b" := by decide
+theorem pin_literal_NumInfo_decimal : Gen.C06.pin_literal_NumInfo_decimal = "86ad380582be13ad" := by decide
 theorem pin_literal_ParseNum : Gen.C06.pin_literal_ParseNum = "f62ad6ae0fe132dc" := by decide
-theorem pin_literal_NumInfo_scanNumber : Gen.C06.pin_literal_NumInfo_scanNumber = "a6c1b546d7314114" := by decide
+theorem pin_literal_NumInfo_scanNumber : Gen.C06.pin_literal_NumInfo_scanNumber = "225e8ba521fd787b" := by decide
 theorem pin_literal_NumInfo_scanMantissa : Gen.C06.pin_literal_NumInfo_scanMantissa = "8f02c5a2db5ecd93" := by decide
 theorem pin_literal_NumInfo_next : Gen.C06.pin_literal_NumInfo_next = "fec08a8bae3fc87b" := by decide
 theorem pin_compile_intDivOp : Gen.C06.pin_compile_intDivOp = "01f89247371afec8" := by decide
